@@ -217,6 +217,20 @@ int main(void)
 				PROP(found_desc, "descriptor block i was written where opening from this backup will read it");
 		}
 	}
+	if (!IN.super_only) {
+		/* the PRIMARY copy of descriptor block i -- what a normal open (superblock 0) reads -- is rewritten by every
+		 * flush that writes descriptors at all, also under MASTER_SB_ONLY (that is how e2fsck's repairs of group
+		 * descriptors reach the disk); with meta_bg it lives in the first group of its meta group, not in group 0 */
+		int found_prim = 0;
+		blk64_t loc0 = ext2fs_descriptor_block_loc2(&vf_fs, 1, IN.i);
+		for (k = 0; k < MAXLOG; k++) {
+			if (k >= vf_nlog || vf_lsrc[k] < 0 || vf_lcnt[k] <= 0) continue;
+			if (loc0 >= vf_lblk[k] && loc0 < vf_lblk[k] + (unsigned) vf_lcnt[k] &&
+			    vf_lsrc[k] + (long) (loc0 - vf_lblk[k]) * 1024 == (long) IN.i * 1024)
+				found_prim = 1;
+		}
+		PROP(found_prim, "primary descriptor block i is written where a normal open reads it (also under MASTER_SB_ONLY)");
+	}
 	if (IN.master_only) {
 		/* MASTER_SB_ONLY: no backup SUPERBLOCK is rewritten (meta_bg descriptor copies may still be) */
 		for (k = 0; k < MAXLOG; k++)
